@@ -262,7 +262,7 @@ class Verdict(object):
     def __init__(self, prop, tier):
         self.prop, self.tier = prop, tier
         self.violations, self.known_hits = [], {}
-        self.known = [k for k in load_known_findings() if k["property"] == prop and k["status"] == "known"]
+        self.known = [k for k in load_known_findings() if k["status"] == "known" and (k["property"] == prop or (k["property"] == "*" and prop in k.get("properties", [prop])))]
         self.t0 = time.time()
         self.nreplay = 0
 
